@@ -151,6 +151,10 @@ CHECKS = {
         ref="DESIGN.md §4 C20"),
 }
 
+ALSO = (" The configurations grew over six rounds of independently seeded changes (histories before the checked call, more container kinds and dtypes, sweeps over the "
+        "whole table, IEEE-754 sub-cases, and a few sub-checks on concrete values that are labelled 'auxiliary, concrete (not solver-decided)' in their obligation "
+        "text): evidence.bounds lists them completely, DESIGN.md par. 13 says which seeded change each of them answers.")
+
 NOT_APPLICABLE = {
     "C17": "unit-system manager is a discrete registry/callback state machine over dicts keyed by hashed ids with no arithmetic, size or "
            "string-algebra input for a solver to quantify over; CrossHair realises symbolic ids at dict hashing and did not converge; "
@@ -174,7 +178,7 @@ def main():
             "evidence_file": "evidence/%s.json" % pid,
             "replay_cmd_template": "bin/check --replay {path}",
             "engine": c.get("engine", "symx"),
-            "level_claimed": {"category": "model_checking", "text": c["text"], "design_ref": c["ref"]},
+            "level_claimed": {"category": "model_checking", "text": c["text"] + ALSO, "design_ref": c["ref"]},
             "level_note": c["note"],
             "technique": c.get("technique", "bounded symbolic execution of the real Python code with z3 (SMT) per path; counterexample replay"),
         })
